@@ -35,7 +35,7 @@ pub mod rust_util {
 /// Policy internals (`policy` is a private module).
 pub mod policy {
     pub use crate::policy::marksweepspace::native_ms::mi_bin;
-    pub use crate::policy::sft_map::{SFTMap, SFTSpaceMap};
+    pub use crate::policy::sft_map::{SFTMap, SFTSpaceMap, SFTSparseChunkMap};
     pub use crate::policy::space::Space;
     /// Compressor forwarding metadata.
     pub mod compressor {
